@@ -124,12 +124,15 @@ def run(chk):
             if rng.random() < 0.2 and hist:
                 qs = hist[rng.randrange(len(hist))]            # repeat an earlier lookup
             hist.append(qs)
+            kk = k
             if kind == "SymdelDB":
                 st, val = core.call_real(lambda: core.canon_trips(db.lookup(qs)))
             else:
-                st, val = core.call_real(lambda: core.canon_trips(db.lookup(qs, max_edits=k)))
-            ops.append({"op": "brute_cross", "ref": ref, "qs": qs, "k": k, "mode": "lev"})
-            expect.append((kind, ref, k, list(hist), (st, val)))
+                # a LookupDB serves lookups at ANY radius: vary it within one history (ascending, descending, repeated)
+                kk = rng.choice([1, 2]) if max(len(q) for q in qs + [""]) <= 3 else 1
+                st, val = core.call_real(lambda: core.canon_trips(db.lookup(qs, max_edits=kk)))
+            ops.append({"op": "brute_cross", "ref": ref, "qs": qs, "k": kk, "mode": "lev"})
+            expect.append((kind, ref, kk, list(hist), (st, val)))
             state1 = db.variant_dict if kind == "SymdelDB" else db.seq_dict
             if state1 != state0 or list(db.seqs) != list(ref):
                 chk.violation(f"C03|{kind}|state-changed", f"{kind} stored index changed by a lookup",
